@@ -367,3 +367,49 @@ PROPS['C11'] = dict(
     level_text='generated arguments over the full exponent range per function and configuration, judged against a higher-precision reference with a fixed ulp budget; sampling, not proof; errors below K*u are invisible',
     level_note='trusts glibc long double math; quick covers 4 of 128 switch subsets per type, thorough all of them',
 )
+
+
+def c10_units(tier, seed):
+    import random
+    rnd = random.Random(seed + 10)
+    n = len(HAVE_ALL)
+    full = (1 << n) - 1
+    if tier == 'thorough':
+        masks = [full, 0] + [full ^ (1 << i) for i in range(n)] + [1 << i for i in range(n)] + [rnd.getrandbits(n) for _ in range(40)]
+    else:
+        masks = [full, 0] + [rnd.getrandbits(n) for _ in range(2)]
+    units, seen = [], set()
+    for real in (8, 4):
+        for m in masks:
+            if (real, m) in seen:
+                continue
+            seen.add((real, m))
+            on = [s for i, s in enumerate(HAVE_ALL) if (m >> i) & 1]
+            off = [s for s in HAVE_ALL if s not in on]
+            name = '%s-%06x' % ('f64' if real == 8 else 'f32', m)
+            cfg = '%s; fallback bodies: %s' % ('double' if real == 8 else 'float', ','.join(off) or 'none (all libm)')
+            units.append(Unit(name, 'exec/C10.cc', ['a.c', 'math.c', 'complex.c'], defs=config_defs(real, on),
+                              exec_defs=['-DVP_CFG="%s"' % name], tape_len=96, config=cfg, fuzz=(m in (0, full))))
+    return units
+
+
+PROPS['C10'] = dict(
+    level='exploration',
+    rule='one executor binary per build configuration: a subset of the 23 A_HAVE_* switches (each function libm-backed or fallback) x real type (double, float), passed as -D flags to the unmodified sources; quick: all-on, all-off and two '
+         'seeded random subsets for both types; thorough: all-on, all-off, the 23 single-off, the 23 single-on and 40 seeded random subsets for both types. Each tape yields up to 6 sub-cases over 58 complex operations (field arithmetic incl. '
+         'real/imaginary scalar and in-place forms, inv, conj, neg, polar, abs/abs2/logabs/arg, sqrt, pow, pow_real, exp, log, log2, log10, logb, six trigonometric, six inverse, six hyperbolic, six inverse hyperbolic), 7 real-argument variants '
+         'and the inverse pairs (mul/div by the same real, imaginary and complex operand, exp(log z), log(exp z)). Arguments: modulus log-uniform over 2^-27..2^27 (2^-26..2^26 for float) or from a dictionary of formula-switch values +-4 ulp; angle '
+         'class = interior of each quadrant, near an axis (relative distance 1e-6..1e-3), or exactly on an axis; points closer than 2e-6*|z| to a branch cut of the function are moved off the cut (counted), poles/overflows of the true value are skipped (counted). '
+         'Oracle: glibc long double complex functions (principal values, ISO C Annex G); accept |got-ref| <= K*u*(|ref| + kappa), kappa = max over directions {1, i} (and the second operand) of |f(z+eps|z|d)-f(z)|/eps with eps = 2^-30, evaluated by the '
+         'same reference. non-trivial = z off both axes with modulus outside [0.5, 2] or within 1e-3 of an axis, every real-argument and pair case; distinct = (configuration, function, argument bits)',
+    assumptions=COMMON_ASSUME + ['reference: glibc csqrtl/cpowl/cexpl/clogl/csinl/.../catanhl in x87 long double; reciprocal families as 1/f resp. f(1/z) in long double',
+                                 'the numerical condition term kappa is part of the acceptance bound ("scaled by the conditioning of the function at that point")',
+                                 'real-argument variants on a cut may return either side (sign of the imaginary part free)'],
+    units=c10_units,
+    plan={'quick': dict(rc_procs=2, rc_cases=12000, fuzz_procs=1, fuzz_secs=15),
+          'thorough': dict(rc_procs=1, rc_cases=40000, fuzz_procs=1, fuzz_secs=60)},
+    tolerances={'K': '32 (128 for the inverse trigonometric and inverse hyperbolic families)', 'eps_for_kappa': '2^-30', 'largest_ratio_seen_on_unchanged_tree': 'about 17 (inverse hyperbolic), 8 elsewhere'},
+    technique='property-based differential testing against long double complex references with a numerically evaluated condition term, one binary per A_HAVE_* configuration and real type; inverse-pair metamorphic relations; rapidcheck tapes + libFuzzer',
+    level_text='generated arguments by modulus/angle class for every complex operation in every built configuration, judged against a higher-precision reference with a fixed budget K*u*(|f|+kappa); sampling, not proof',
+    level_note='trusts glibc long double complex math; quick covers 4 of 2^23 switch subsets per type, thorough 88',
+)
